@@ -341,7 +341,115 @@ def plan_calls(ctx, r, spec, codec, svc_obj, per_method):
     return plans
 
 
-def run_api(ctx, r, spec, label, per_method=1, informational=None):
+def plan_multi(r, spec, codec, svc_obj):
+    """Two clients of the same service in one interpreter, each bound to ITS OWN loopback server (a@A, b@B),
+    calls interleaved in random order; then `a` is closed, a new client c@A is created and c and b call again.
+    For every call the addressed server is scripted with the reply, the other server with a DIFFERENT decoy."""
+    import gapic.utils as gu
+    out = {}
+    for asy in (False, True):
+        usable = [(mi, me) for mi, me in enumerate(spec["methods"])
+                  if not (asy and me["output"]["full"] == "google.protobuf.Empty" and (me["cs"] or me["ss"]))   # open finding: call dropped
+                  and me["name"].lower() not in ()]
+        r.shuffle(usable)
+        usable = usable[:4]
+        steps = []
+        first = ["a", "b"] if r.maybe() else ["b", "a"]
+        home = {"a": "A", "b": "B", "c": "A"}
+        for nm in first:
+            steps.append({"step": {"do": "create", "name": nm, "server": home[nm]}})
+
+        def call_step(cl, mi, me):
+            m = svc_obj.methods[me["name"]]
+            in_full, out_full = me["input"]["full"], me["output"]["full"]
+            path = f"/{PKG}.{spec.get('service', SERVICE)}/{me['name']}"
+            nrep = r.randint(1, 3) if me["ss"] else 1
+            void = out_full == "google.protobuf.Empty"
+            replies = [({} if void else rpc.rand_msg(r, codec, out_full, p_set=0.9)) for _ in range(nrep)]
+            decoy = [({} if void else rpc.rand_msg(r, codec, out_full, p_set=0.9)) for _ in range(nrep + (1 if me["ss"] else 0))]
+            target, other = home[cl], ("B" if home[cl] == "A" else "A")
+            step = {"do": "call", "client": cl, "method": gu.to_snake_case(m.client_method_name),
+                    "py_request": rpc.py_type(m.input), "consume": "auto", "call_kwargs": {"timeout": 6.0},
+                    "script": {target: {path: [{"replies": [codec.encode_b64(out_full, x) for x in replies]}]},
+                               other: {path: [{"replies": [codec.encode_b64(out_full, x) for x in decoy]}]}}}
+            if me["cs"]:
+                reqs = [rpc.rand_msg(r, codec, in_full, p_set=0.9) for _ in range(r.randint(1, 2))]
+                step.update(mode="request-none", stream_requests=[codec.encode_b64(in_full, x) for x in reqs])
+                want = [codec.normal(in_full, x) for x in reqs]
+            else:
+                val = rpc.rand_msg(r, codec, in_full, p_set=0.9)
+                step.update(mode="request-instance", request_b64=codec.encode_b64(in_full, val))
+                want = [codec.normal(in_full, val)]
+            return {"step": step, "mi": mi, "client": cl, "target": target, "requests": want, "replies": replies, "path": path,
+                    "phase": "after-close" if "c" in home and cl == "c" else "interleaved"}
+        for mi, me in usable:
+            order = ["a", "b"] if r.maybe() else ["b", "a"]
+            if r.maybe(0.3):
+                order.append(r.pick(["a", "b"]))
+            for cl in order:
+                steps.append(call_step(cl, mi, me))
+        steps.append({"step": {"do": "close", "name": "a"}})
+        steps.append({"step": {"do": "create", "name": "c", "server": "A"}})
+        for mi, me in usable[:2]:
+            for cl in (["c", "b"] if r.maybe() else ["b", "c"]):
+                st = call_step(cl, mi, me)
+                st["phase"] = "after-close"
+                steps.append(st)
+        out[asy] = steps
+    return out
+
+
+def judge_multi(ctx, spec, codec, mplan, mout, fail, payload):
+    """oracle: per server exactly the calls addressed to it arrived (path, request), each client got the reply
+    of ITS OWN server; a client created after another one was closed works."""
+    for asy, sess in zip((False, True), mout):
+        fl = "async" if asy else "sync"
+        steps = mplan[asy]
+        if "steps" not in sess:
+            exc = sess.get("op_error") or "child_error"
+            fail("multi-client:session:" + exc, f"{fl}: two clients in one interpreter: {exc}: {(sess.get('trace') or str(sess.get('child_error', '')))[-300:]}", None, asy)
+            continue
+        missing = set()          # clients whose construction failed: later steps naming them are not judged
+        for st, res_ in zip(steps, sess["steps"]):
+            step = st["step"]
+            if step["do"] == "create":
+                if "raised" in res_:
+                    missing.add(step["name"])
+                    # same failure class as a single client that cannot be constructed
+                    fail("session:" + res_["raised"], f"{fl}: client {step['name']} could not be constructed: {res_['raised']}: {res_.get('msg')}", None, asy)
+                continue
+            if step["do"] == "close":
+                if "raised" in res_ and step["name"] not in missing:
+                    fail("multi-client:close-raised", f"{fl}: closing client {step.get('name')} raised {res_['raised']}: {res_.get('msg')}", None, asy)
+                continue
+            if st["client"] in missing:
+                continue
+            me = spec["methods"][st["mi"]]
+            in_full = me["input"]["full"]
+            tag = "client-after-close" if st["phase"] == "after-close" else "multi-client"
+            extra = {"method": me["name"], "flavor": fl, "client": st["client"], "own_server": st["target"], "phase": st["phase"]}
+            ctx.case({"multi_client": True, "method": me["name"], "flavor": fl, "client": st["client"], "phase": st["phase"]},
+                     distinct_key=["multi", canon(me), fl, st["client"], st["phase"], canon(st["requests"]), canon(st["replies"])])
+            ctx.count("multi_client", f"{fl}:{st['phase']}")
+            ctx.traces += 1
+            if "ok" not in res_:
+                fail(f"{tag}:raised:{res_.get('raised')}", f"{fl} client {st['client']}@{st['target']} {me['name']} raised {res_.get('raised')}: {res_.get('msg')}", me, asy, extra=extra)
+                continue
+            for sn, recs in res_["servers"].items():
+                if sn == st["target"]:
+                    if len(recs) != 1 or recs[0]["path"] != st["path"]:
+                        fail(f"{tag}:own-server-calls", f"{fl} client {st['client']}@{sn} {me['name']}: its own server saw {[x['path'] for x in recs]}, expected exactly one call to {st['path']}", me, asy, extra=extra)
+                    elif [codec.decode(in_full, b) for b in recs[0]["requests"]] != st["requests"]:
+                        fail(f"{tag}:payload", f"{fl} client {st['client']}@{sn} {me['name']}: server decoded {[codec.decode(in_full, b) for b in recs[0]['requests']]}, caller sent {st['requests']}", me, asy, extra=extra)
+                elif recs:
+                    fail(f"{tag}:call-on-other-channel", f"{fl} client {st['client']}@{st['target']} {me['name']}: server {sn} (another client's channel) received {[x['path'] for x in recs]}", me, asy, extra=extra)
+            ret = observed_ret(codec, me, res_["ok"])
+            want = expected_ret(me, st["replies"])
+            if ret != want and not (want["kind"] == "none" and ret == {"kind": "stream", "items": [None] * len(st["replies"])}):
+                fail(f"{tag}:return", f"{fl} client {st['client']}@{st['target']} {me['name']}: returned {str(ret)[:200]}, its server sent {str(want)[:200]}", me, asy, extra=extra)
+
+
+def run_api(ctx, r, spec, label, per_method=1, informational=None, multi_client=True):
     """informational: None, or the text of the hypothesis this spec probes (failures are recorded as an
     assumption, not as oracle failures)"""
     files, targets, deps = build_files(spec)
@@ -441,8 +549,24 @@ def run_api(ctx, r, spec, label, per_method=1, informational=None):
                 ctx.count("infrastructure", "session-timeout-retried")   # sporadic hang of the run-time shell: retry
                 continue
             break
+        multi = None
+        if multi_client and not informational:
+            mplan = plan_multi(r, spec, codec, svc)
+            mops_ = [{"op": "grpc_multi_session", "client": loc["async_client" if asy else "client"],
+                      "transport": loc["grpc_asyncio" if asy else "grpc"], "async": asy, "servers": ["A", "B"],
+                      "steps": [copy.deepcopy(st["step"]) for st in mplan[asy]]} for asy in (False, True)]
+            for attempt in range(3):
+                mout = libhost.run(root, mops_, timeout=120)      # a FRESH interpreter: no transport of this service exists yet
+                bad = [str(o.get("child_error", "")) for o in mout if "child_error" in o]
+                if bad and attempt < 2:
+                    time.sleep(3)
+                    continue
+                break
+            multi = (mplan, mout)
     finally:
         genrun.cleanup(root)
+    if multi is not None:
+        judge_multi(ctx, spec, codec, multi[0], multi[1], fail, payload)
     # model traces
     mops = []
     for asy in (False, True):
